@@ -96,6 +96,21 @@ CLAIMED['C07'] = dict(
     technique="Lean 4 invariant proof through the recursive walk + source bridge + differential keep-going runs",
     ref='§7 C07')
 
+CLAIMED['C02'] = dict(
+    text=("Lean theorems over the model of the loading loop (load_manifests_for_path / verify_and_load), for Manifest trees of any "
+          "depth: a sub-Manifest loaded against an entry matched it (loadOne_verified); with verification on, every queued item "
+          "carries a MANIFEST entry of an already loaded Manifest (toLoad_queueOK) and whatever a round adds to the loaded set was "
+          "named by such an entry and matched its size and checksums before being parsed (C02_round_trusted); a non-matching "
+          "sub-Manifest ends the round with the mismatch error for exactly that path (loadAll_broken_link, C02_tamper_detected) and "
+          "that error is the result of directory verification, verify_path, assert_path_verifies, find_path_entry and "
+          "find_dist_entry (C02_*_fail_too). PARTIAL: stated per loading round, not as one invariant over all rounds of a "
+          "loader's life; the TOCTOU window between hashing and re-opening a sub-Manifest is not modelled. Tie: Bridge.Tree "
+          "(verify defaults on, verify_and_load shape, lookups call the loader without verify=False); differential tampering runs: "
+          "chains of depth 1..5, every compression, consistent recomputation up to level k with an independent writer, six entry points."),
+    note=TB + "Assumes the parent entry lists a checksum or the size changes; fresh loader per call; no hash collisions.",
+    technique="Lean 4 theorems over the loading loop + source bridge + differential tampering with an independent Manifest writer",
+    ref='§7 C02')
+
 PENDING = ['C01', 'C02', 'C03', 'C04', 'C05', 'C06', 'C07', 'C08', 'C10', 'C11', 'C12', 'C13', 'C14', 'C15', 'C16',
            'C17', 'C18', 'C19', 'C20']
 
